@@ -4,6 +4,8 @@ package spynode
 
 import (
 	"context"
+	"runtime/debug"
+	"strings"
 
 	"github.com/tokenized/logger"
 	"github.com/tokenized/pkg/bitcoin"
@@ -15,4 +17,19 @@ func quietCtx() context.Context { return logger.ContextWithNoLogger(context.Back
 func stepConfig() config.Config {
 	return config.Config{Net: bitcoin.MainNet, IsTest: true, NodeAddress: "127.0.0.1:1", UserAgent: "/verif/",
 		SafeTxDelay: 2000, MaxRetries: 1000, RetryDelay: 10}
+}
+
+// shortStack returns the frames of the current (panicking) stack that belong to spynode or its
+// dependencies, without the harness and runtime noise.
+func shortStack() string {
+	var out []string
+	for _, l := range strings.Split(string(debug.Stack()), "\n") {
+		if strings.Contains(l, ".go:") && !strings.Contains(l, "zz_verif_") && !strings.Contains(l, "/runtime/") && !strings.Contains(l, "/testing/") && !strings.Contains(l, "pgregory.net") {
+			out = append(out, strings.TrimSpace(l))
+		}
+		if len(out) >= 8 {
+			break
+		}
+	}
+	return strings.Join(out, " <- ")
 }
